@@ -115,23 +115,16 @@ class CallMixin:
                 inst_guards = [z3.substitute(g, (v, last)) for g in others]
                 if rest_bvs:
                     p2 = choose_patterns(rest_bvs, inst_body)
-                    inst = z3.ForAll(rest_bvs, z3.Implies(z3.And(*inst_guards) if inst_guards else z3.BoolVal(True), inst_body),
-                                     **({"patterns": p2} if p2 else {}))
+                    inst = forall_pat(rest_bvs, z3.Implies(z3.And(*inst_guards) if inst_guards else z3.BoolVal(True), inst_body), p2)
                 else:
                     inst = inst_body
                 guards2 = list(guards)
                 guards2[2 * gi + 1] = v < last
                 pats = choose_patterns(bvs, body)
-                main = z3.ForAll(bvs, z3.Implies(z3.And(*guards2), body), **({"patterns": pats} if pats else {}))
+                main = forall_pat(bvs, z3.Implies(z3.And(*guards2), body), pats)
                 return z3.And(main, z3.Implies(lo_t <= last, inst))
             pats = choose_patterns(bvs, body)
-            if pats:
-                try:
-                    return z3.ForAll(bvs, z3.Implies(z3.And(*guards), body), patterns=pats)
-                except z3.Z3Exception:
-                    import sys
-                    print("invalid pattern", pats, file=sys.stderr)
-            return z3.ForAll(bvs, z3.Implies(z3.And(*guards), body))
+            return forall_pat(bvs, z3.Implies(z3.And(*guards), body), pats)
         return z3.Exists(bvs, z3.And(*(guards + [body])))
 
     def eval_old(self, node, st):
@@ -172,6 +165,7 @@ class CallMixin:
         for p, a in zip(sp.params, args):
             if isinstance(a, SArr):
                 h = a.snap if a.snap is not None else st.heap[a.cell]
+                self._keep.append(h)  # ids are recycled once a term is freed: keep every keyed term alive
                 key.append(("arr", a.dt, tuple(x.get_id() for x in (h if isinstance(h, tuple) else (h,))),
                             tuple(str(s) for s in a.shape), tuple(str(s) for s in a.fixed)))
             elif isinstance(a, str) or a is None:
@@ -661,13 +655,13 @@ def choose_patterns(bvs, body):
 
 _FORBID = (z3.Z3_OP_ITE, z3.Z3_OP_AND, z3.Z3_OP_OR, z3.Z3_OP_NOT, z3.Z3_OP_IMPLIES, z3.Z3_OP_EQ, z3.Z3_OP_LE, z3.Z3_OP_LT,
            z3.Z3_OP_GE, z3.Z3_OP_GT, z3.Z3_OP_DISTINCT, z3.Z3_OP_XOR)
-_forbid_cache = {}
+_forbid_cache = {}   # ast id -> (term kept alive, verdict): ids are recycled by z3 once a term is freed
 
 
 def _forbidden_in_pattern(t):
     k = t.get_id()
-    if k in _forbid_cache:
-        return _forbid_cache[k]
+    if k in _forbid_cache and _forbid_cache[k][0].eq(t):
+        return _forbid_cache[k][1]
     r = False
     if z3.is_quantifier(t):
         r = True
@@ -676,8 +670,17 @@ def _forbidden_in_pattern(t):
             r = True
         else:
             r = any(_forbidden_in_pattern(c) for c in t.children())
-    _forbid_cache[k] = r
+    _forbid_cache[k] = (t, r)
     return r
+
+
+def forall_pat(bvs, body, pats):
+    if pats:
+        try:
+            return z3.ForAll(bvs, body, patterns=pats)
+        except z3.Z3Exception:
+            pass
+    return z3.ForAll(bvs, body)
 
 
 def _minus_one(t):
